@@ -353,6 +353,21 @@ def matrix_store(rng):
     return store
 
 
+def calendar_store():
+    """one submodel holding every (calendar edge, time zone) pair of SpecGen.calendar_values() - the eight date/time types
+    of DataTypeDefXsd - as a Property value and every third one also as min and max of a Range: the writing and the
+    reading oracle see every one of them on every run (no random choice)"""
+    from basyx.aas import model
+    elems = []
+    for n, (ty, v) in enumerate(c05_spec.SpecGen.calendar_values()):
+        elems.append(model.Property(f"c{n}", ty, v))
+        if n % 3 == 0:
+            elems.append(model.Range(f"r{n}", ty, min=v, max=v))
+    store = model.DictObjectStore()
+    store.add(model.Submodel("https://example.org/sm/calendar-edges", submodel_element=elems))
+    return store
+
+
 def fraction_store(rng, n=300):
     """fractional seconds with six significant digits: n microsecond values (a few around powers of ten and ends of
     the range, the rest drawn at random) in an xs:dateTime, an xs:time and an xs:duration Property each, and in
@@ -670,6 +685,75 @@ def write_oracle(chk, judges, twin, store, i, strings, t=None):
 
 
 
+def writer_raised(chk, store, label, t):
+    """the oracle could not judge a store because something raised: find out whether it was one of the SDK's writers and,
+    if so, on which object - every identifiable of the store alone and, for a submodel, every top-level element alone in
+    a submodel of its own - and report each culprit with its canonical form and the JSON the mapping prescribes for it
+    (independent writer: class, valueType, literal).  True if at least one writer failure was reported"""
+    from basyx.aas import model
+    from basyx.aas.adapter.json import write_aas_json_file
+    from basyx.aas.adapter.xml import write_aas_xml_file
+
+    def attempt(objs):
+        st = model.DictObjectStore()
+        for o in objs:
+            st.add(o)
+        errs = {}
+        for fmt, wr, buf in (("json", write_aas_json_file, io.StringIO()), ("xml", write_aas_xml_file, io.BytesIO())):
+            try:
+                wr(buf, st)
+            except Exception as e:
+                errs[fmt] = e
+        return errs
+
+    def prescribed(canon):
+        try:
+            env = c05_spec.IndependentWriter(t, {}).json_env([canon])
+            return next(v[0] for v in env.values() if v)
+        except Exception as e:           # the replay then carries the canonical form only
+            return f"(independent writer: {type(e).__name__}: {e})"
+
+    if not attempt(list(store)):
+        return False
+    found = 0
+    reported = set()
+    for o in sorted(store, key=lambda x: x.id):
+        whole = attempt([o])
+        if not whole:
+            continue
+        culprits = []
+        if isinstance(o, model.Submodel) and len(o.submodel_element) > 1:
+            for el in list(o.submodel_element):
+                o.submodel_element.remove(el)
+                try:
+                    single = model.Submodel(o.id, submodel_element=[el])
+                    errs = attempt([single])
+                    if errs:
+                        culprits.append((c05_spec.norm(aasgen.canon(single)), el, errs))
+                    single.submodel_element.remove(el)
+                finally:
+                    o.submodel_element.add(el)
+        if not culprits:
+            culprits = [(c05_spec.norm(aasgen.canon(o)), o, whole)]
+        for canon, el, errs in culprits:
+            for fmt, e in sorted(errs.items()):
+                vt = getattr(el, "value_type", None)
+                vt = ":" + c05_spec.xsd_name(vt.__name__) if isinstance(vt, type) else ""
+                s = f"C05:write:{fmt}:raised:{type(el).__name__}{vt}:{type(e).__name__}"
+                if s in reported:
+                    continue
+                reported.add(s)
+                found += 1
+                chk.fail(s, f"the {fmt.upper()} writer raised {type(e).__name__}: {str(e)[:200]} on a store that satisfies the "
+                            f"metamodel constraints ({label}): object {canon.get('id')!r}"
+                            + (f", element {el.id_short!r}" if isinstance(el, model.SubmodelElement) else ""),
+                         {"how": "build the object of `canonical` (tools/aasgen.py canonical form; `prescribed_json` is what "
+                                 f"the mapping prescribes for it) and write it with write_aas_{fmt}_file",
+                          "format": fmt, "raised": f"{type(e).__name__}: {e}", "canonical": canon,
+                          "prescribed_json": prescribed(canon)})
+    return found > 0
+
+
 _SET_MEMBERS = ("submodels", "isCaseOf", "refersTo", "valueReferencePairs", "specificAssetIds")
 
 
@@ -745,18 +829,41 @@ def run(chk):
         ms = matrix_store(rng)
         chk.seen(("matrix", sorted(o.id for o in ms)))
         chk.count("matrix:elements", sum(len(o.submodel_element) for o in ms))
-        write_oracle(chk, judges, twin, ms, -1, "typed-value matrix")
+        try:
+            write_oracle(chk, judges, twin, ms, -1, "typed-value matrix")
+        except Exception:
+            if not writer_raised(chk, ms, "typed-value matrix", t):
+                raise
         read_oracle(chk, judges, twin, t, rng, ms, -1, every_style=True)
     except Exception:
         import traceback
         chk.tie_broken("typed-value-matrix", traceback.format_exc()[-1500:])
+
+    # ---------------------------------------------------------------- calendar edges x time zones: a sweep, every run
+    try:
+        cs = calendar_store()
+        chk.seen(("calendar", sum(len(o.submodel_element) for o in cs)))
+        chk.count("calendar:elements", sum(len(o.submodel_element) for o in cs))
+        try:
+            write_oracle(chk, judges, twin, cs, -1, "calendar edges")
+        except Exception:
+            if not writer_raised(chk, cs, "calendar edges", t):
+                raise
+        read_oracle(chk, judges, twin, t, rng, cs, -1, every_style=True, kinds=[])
+    except Exception:
+        import traceback
+        chk.tie_broken("calendar-edges", traceback.format_exc()[-1500:])
 
     # ---------------------------------------------------------------- six-digit fractional seconds: a sweep, every run
     try:
         fs = fraction_store(rng, 220 if quick else 3000)
         chk.seen(("fractions", sum(len(o.submodel_element) for o in fs)))
         chk.count("fractions:elements", sum(len(o.submodel_element) for o in fs))
-        write_oracle(chk, judges, twin, fs, -2, "fraction sweep")
+        try:
+            write_oracle(chk, judges, twin, fs, -2, "fraction sweep")
+        except Exception:
+            if not writer_raised(chk, fs, "fraction sweep", t):
+                raise
         read_oracle(chk, judges, twin, t, rng, fs, -2, kinds=[])
     except Exception:
         import traceback
@@ -793,8 +900,9 @@ def run(chk):
         try:
             out = write_oracle(chk, judges, twin, store, i, strings)
         except Exception as e:
-            chk.fail("C05:write:raised", f"writing a generated store raised {type(e).__name__}: {e}",
-                     {"how": f"seed={chk.seed} store #{i}", "ids": sorted(o.id for o in store)})
+            if not writer_raised(chk, store, f"seed={chk.seed} store #{i} ({strings})", t):
+                chk.fail("C05:write:raised", f"writing a generated store raised {type(e).__name__}: {e}",
+                         {"how": f"seed={chk.seed} store #{i}", "ids": sorted(o.id for o in store)})
             continue
         if strings == "plain":
             jdocs.append(canon_sets_json(out["json"]))
@@ -919,7 +1027,9 @@ def run(chk):
         level="proof",
         rule="seeded generator c05_spec.SpecGen (aasgen.Gen with BCP 47 tags, RFC 2046 content types, RFC 8089 file URIs, "
              "version/revision digits, DataTypeDefXsd types, no empty strings): stores of 1-4 identifiables, depth<=3, every "
-             "class, optional attributes p=.5, plain/JSON-stress/XML-stress strings in turn; validator correspondence on SDK "
+             "class, optional attributes p=.5, plain/JSON-stress/XML-stress strings in turn; every run also the typed-value matrix, "
+             "the calendar sweep (every calendar edge of the eight date/time types x every time-zone class, as Property and "
+             "Range) and the fraction sweep; a raising writer is narrowed down to one element; validator correspondence on SDK "
              "output and on one random damage per document (delete, rename, empty, retype, long, literal, modelType, extra, "
              "swap, duplicate, stray text); non-trivial = every generated case; distinct by ids")
 
